@@ -37,21 +37,24 @@ MANIFEST = dict(
          "switches = s + 2f, zero on identical input, invariance under swapping the haplotypes of either phasing, Hamming = "
          "minimum over correspondences = min(d, n-d), different genotypes = multiset definition, switch errors = changes of "
          "the forced correspondence, agreement vector has exactly `hamming` zeros. Polyploid calculator "
-         "(switchflipcalculator.cpp, model incl. its pruning), ploidy <= 4, all lengths and costs: cost = brute-force minimum "
+         "(switchflipcalculator.cpp, model incl. its pruning), every ploidy (`*_any_ploidy`), all lengths and costs: cost = brute-force minimum "
          "over all sequences of haplotype correspondences; every (switches, flips) pair the back-tracking may return is REALISED "
          "by such a sequence and is a member of the brute-force set of optimal pairs (poly_reported_pair_realised); with the "
          "costs compare_block uses the pair is unique and the lexicographic minimum of (switches+flips, flips) "
          "(poly_fixed_split_unique_lexmin); the optimum and the set of co-optimal pairs are invariant under listing the "
          "haplotypes of either phasing in any order (poly_optimum_perm_invariant) and so is everything compare_block reports "
-         "for ploidy 3, 4 (poly_perm_invariant). Glue of run_compare (sample selection, reader filters incl. --only-snvs, "
+         "for every ploidy >= 3 (poly_perm_invariant_any_ploidy; all polyploid theorems now hold for EVERY ploidy: the state list is "
+         "characterised and equals the specification's enumeration of bijections for all p, Lemmas/C11Perms). Pairwise report: "
+         "DEFINITION `Spec/C11Run.lean` (`c11.runspec`, `c11.pairspec`) compared three-way with the Python oracle, the model and the "
+         "real CLI rows; proved: totals_are_sums, run_compare_rows_are_pair_comparisons. Glue of run_compare (sample selection, reader filters incl. --only-snvs, "
          "variant identity, common chromosomes, all pairs, BED order, multiway table): executable Lean model `c11.run`, tied "
          "to the working tree by real CLI runs; with fixes/F46.patch every assessed diploid block has the shape the diploid "
          "theorems assume (assessed_diploid_blocks_are_complementary)",
     design_ref="DESIGN.md §5 C11, §6 F3",
     note="trusted: Lean kernel, axioms ⊆ {propext, Classical.choice, Quot.sound}; the hand-written model (correspondence is "
          "differential testing: quick ≈ 5 500 cases incl. ≈ 135 + ≈ 100 CLI runs, thorough ≈ 70 000 incl. ≈ 1 800 + ≈ 1 000). "
-         "Not proved in Lean: ploidy > 4; the joint-block / totals part of the model of `compare` against a spec (checked "
-         "against brute-force definitions on every run). Not modelled: HP-tag phasing, --names validation, plots, the printed "
+         "Not proved in Lean: `jointBlocks` = naive group-by and `sfLoop` = run-length decomposition (the two missing pieces of "
+         "`run_compare_meets_spec`; compared on every run). Not modelled: HP-tag phasing, --names validation, plots, the printed "
          "report, allele indices >= 10 (two characters in the haplotype strings). Open findings on the unchanged tree: F45 "
          "(KeyError on a multi-allelic diploid call), F46 (diploid numbers derived from the first haplotype only), F47 "
          "(hash-seed dependent sample column of --tsv-multiway), each with a patch under fixes/",
@@ -669,6 +672,28 @@ def check_cli(ctx, scen, d, n_relabel, replay_relabelled=None):
                 ctx.disagree("c11.pair", req, {x: res["rows"][key][x] for x in NUMERIC}, ans)
             else:
                 ctx.observe("implementation matches the as-coded model, not the repaired one (F3/FC11a behaviour present)")
+    # ---- the Lean DEFINITION of the pairwise report (`Spec.pairSpec`, op `c11.pairspec`) vs the real rows and vs the model (diploid)
+    if p == 2:
+        specs = ctx.model.ask_many([{"op": "c11.pairspec", "t0": r["t0"], "t1": r["t1"]} for _, r in model_reqs])
+        for (key, req), ans, S in zip(model_reqs, answers, specs):
+            row = res["rows"][key]
+            where = f"{key[0]} f{key[1]}<->f{key[2]}: "
+            got = dict(intersection_blocks=int(row["intersection_blocks"]), covered_variants=int(row["covered_variants"]),
+                       assessed_pairs=int(row["all_assessed_pairs"]), switches=frac(float(row["all_switches"])),
+                       sf=list(parse_sf(row["all_switchflips"])), hamming=frac(float(row["blockwise_hamming"])),
+                       diff=int(row["blockwise_diff_genotypes"]), largest_pairs=int(row["largestblock_assessed_pairs"]))
+            want = {x: S[x] for x in ("intersection_blocks", "covered_variants", "assessed_pairs", "switches", "sf", "hamming", "diff")}
+            want["largest_pairs"] = max(S["largest_len"] - 1, 0)
+            for col in want:
+                if got[col] != want[col]:
+                    fail(where + f"{col}: whatshap compare reports {got[col]}, the definition (Lean Spec.pairSpec) gives {want[col]}", "runspec-" + col)
+            if "crash" not in res and sorted(res["bed"].get(key, [])) != sorted(tuple(b) for b in S["bed"]):
+                fail(where + f"--switch-error-bed rows != rows by definition {sorted(S['bed'])} (Lean Spec.pairSpec)", "runspec-bed")
+            if ans != "error":
+                m_ = [(b[0], b[1]["switches"], b[1]["sf"], b[1]["hamming"], b[1]["diff"]) for b in ans["per_block"]]
+                s_ = [(b["positions"], b["switches"], b["sf"], b["hamming"], b["diff"]) for b in S["blocks"]]
+                if m_ != s_ or ans["bed"] != S["bed"] or ans["largest_len"] != S["largest_len"]:
+                    ctx.disagree("c11.pairspec", req, {"blocks": m_, "bed": ans["bed"]}, {"blocks": s_, "bed": S["bed"]})
     if p == 2 and k > 2 and not ("crash" in res and not res.get("multiway_assert")):
         died = False
         for c in sorted(scen.chroms):      # run_compare processes the chromosomes in sorted order
